@@ -66,6 +66,10 @@ def gen_history(rng, kind=None):
             e["owner"] = "A"
         base["t2"].update({"tiers": ["exact_semantic"], "exact_recent_days": 1, "owner_scope": "any", "k_retrieval": 8,
                            "ranking": {"alpha_sim": 0.2, "beta_recency": 1.0, "gamma_importance": 0.0}})
+    base_t2_k = rng.choice([None, None, None, 1, 2]) if kind in ("repeat", "other-agent", "episode-add", "text-variant", "cfg:ranking", "gel-edge-change", "apply") else None
+    if base_t2_k is not None:
+        # a slice budget that binds: more hits than the slice may use
+        base["t2"].update({"owner_scope": "any", "sim_threshold": -1.0, "k_retrieval": 8})
     ops = []
     agent = "A"
     for rnd in range(rng.randint(2, 5)):
@@ -87,7 +91,8 @@ def gen_history(rng, kind=None):
     raw_t1 = {}
     if kind == "switch-state-reordered" and rng.random() < 0.8:
         raw_t1 = {"relax_cap": rng.choice([1, 1, 2, 3])}
-    return {"world": world, "cfg": base, "ops": ops, "kind": kind, "variant": variant, "raw_t1": raw_t1, "now_unset": rng.random() < (0.5 if kind.startswith("cfg:now") else 0.15)}
+    return {"world": world, "cfg": base, "ops": ops, "kind": kind, "variant": variant, "raw_t1": raw_t1, "now_unset": rng.random() < (0.5 if kind.startswith("cfg:now") else 0.15),
+            "base_t2_k": base_t2_k}
 
 
 class CountingCache:
@@ -193,7 +198,12 @@ def apply_mutation(m, envs, world2, cfgs, slice_holder):
                 a, b = ids[m["i"] % len(ids)], ids[(m["i"] // 7 + 1) % len(ids)]
                 if a != b:
                     k = f"{min(a, b)}→{max(a, b)}"
-                    ge[k] = {"id": k, "src": min(a, b), "dst": max(a, b), "weight": 1.0, "rel": "coact", "attrs": {}}
+                    # edges appear, flip sign (the reranker works on |weight|), weaken and disappear
+                    wv = [1.0, -1.0, 0.4, None, -0.6][(m["i"] // 3) % 5] if k in ge else [1.0, -1.0, -0.6][m["i"] % 3]
+                    if wv is None:
+                        ge.pop(k, None)
+                    else:
+                        ge[k] = {"id": k, "src": min(a, b), "dst": max(a, b), "weight": wv, "rel": "coact", "attrs": {}}
         elif kind == "cfg:k_retrieval":
             cfg["t2"]["k_retrieval"] = 1 if cfg["t2"]["k_retrieval"] != 1 else 8
         elif kind == "cfg:ranking":
@@ -220,7 +230,9 @@ def apply_mutation(m, envs, world2, cfgs, slice_holder):
     if kind == "cfg:now-same-day":
         slice_holder["now_shift_days"] = (slice_holder.get("now_shift_days", 0) + 0.2) % 0.9   # +4.8 h steps inside one UTC day
     if kind == "slice-cap":
-        slice_holder["t2_k"] = 0 if slice_holder.get("t2_k") is None else None
+        # the retrieval budget of the slice appears, tightens, loosens and disappears between the asks
+        slice_holder["t2_k_step"] = slice_holder.get("t2_k_step", 0) + 1
+        slice_holder["t2_k"] = [None, 0, None, 1, 2, 1, None][slice_holder["t2_k_step"] % 7]
     if kind == "slice-cap-t1":
         # per-slice propagation budgets appear / change / disappear between the asks
         slice_holder["t1"] = {0: {"t1_iters": 1}, 1: None, 2: {"t1_pops": 1}, 3: {"t1_iters": 2}, 4: {"t1_pops": 2, "t1_iters": 0}}[int(r * 5) % 5]
@@ -293,6 +305,8 @@ def check_history(case, sess: Session):
             envs["U"].append(eu2)
         cur = 0
         holder = {}
+        if case.get("base_t2_k") is not None and kind != "slice-cap":
+            holder["t2_k"] = case["base_t2_k"]  # a slice budget below the number of hits, the same for every ask of the history
         extra_envs = []
         turn_no = 0
         muts_since = {}
@@ -386,6 +400,29 @@ def check_history(case, sess: Session):
                         _cap["t2"] = t2
                         return real_mpb(ctx, state, t1, t2)
 
+                    real_sy = core._should_yield
+
+                    def syw(slice_ctx, consumed, _cap=cap, _real=real_sy):
+                        # at a stage boundary of run_turn: the retrieval result the turn is working with (also when it came
+                        # out of the turn-level cache and the turn yields before planning)
+                        try:
+                            import sys as _sys
+                            t2v = _sys._getframe(1).f_locals.get("t2")
+                            if t2v is not None and hasattr(t2v, "retrieved"):
+                                _cap.setdefault("t2", t2v)
+                        except Exception:
+                            pass
+                        return _real(slice_ctx, consumed)
+
+                    real_t2 = orch.t2_semantic
+
+                    def t2w(ctx, state, text, t1, _cap=cap, _real=real_t2):
+                        # the stage result is also taken where the stage returns it: a turn that yields at the T2 boundary
+                        # (slice budget used up) never reaches the plan bundle
+                        r_ = _real(ctx, state, text, t1)
+                        _cap.setdefault("t2", r_)
+                        return r_
+
                     ctx_extra = {}
                     if holder.get("t2_k") is not None:
                         pass
@@ -417,7 +454,7 @@ def check_history(case, sess: Session):
                                 env.cfg["scheduler"]["budgets"][k_] = holder["t1"].get(k_)
                         else:
                             env.cfg["scheduler"]["enabled"] = False
-                    with patched(orch, "t1_propagate", t1w), patched(core, "make_plan_bundle", mpb):
+                    with patched(orch, "t1_propagate", t1w), patched(core, "make_plan_bundle", mpb), patched(orch, "t2_semantic", t2w), patched(core, "_should_yield", syw):
                         r = env.run(op["agent"], op["text"], turn_no, now_ms=now_ms, now=now_arg)
                     h1 = t2c._T2_CACHE.hits if isinstance(t2c._T2_CACHE, CountingCache) else 0
                     rec2 = env.records("t2.jsonl")[-1] if env.records("t2.jsonl") else {}
@@ -426,7 +463,7 @@ def check_history(case, sess: Session):
                 sess.count("twin_turns")
                 if oi == len(case["ops"]) - 1:
                     sess.sample({"mutation_kind": kind, "cache_variant": case["variant"], "cfg": case["cfg"], "ops": case["ops"]})
-                tcase = {"world": case["world"], "cfg": case["cfg"], "ops": case["ops"][:oi + 1], "kind": kind, "variant": case["variant"], "raw_t1": raw_t1, "now_unset": case.get("now_unset")}
+                tcase = {"world": case["world"], "cfg": case["cfg"], "ops": case["ops"][:oi + 1], "kind": kind, "variant": case["variant"], "raw_t1": raw_t1, "now_unset": case.get("now_unset"), "base_t2_k": case.get("base_t2_k")}
                 c, u = res["C"], res["U"]
                 if c["r"]["exc"] or u["r"]["exc"]:
                     if bool(c["r"]["exc"]) != bool(u["r"]["exc"]):
@@ -445,6 +482,8 @@ def check_history(case, sess: Session):
                 elif c["t2_stage_hits"]:
                     layers.append("t2-stage")
                     sess.count("hits_served:t2-stage")
+                    if holder.get("t2_k") is not None and u["t2"] is not None and len(u["t2"].retrieved) > int(holder["t2_k"]):
+                        sess.count("hits_served:t2-stage(under a binding slice budget)")
                 for l_ in layers:
                     sess.seen("hits_observed(layer, mutation kind)", (l_, kind))
                 if layers:
@@ -518,6 +557,7 @@ def main(tier: str, seed: int):
     sess.require("hits_served:turn-level", 30)
     sess.require("hits_served:t2-stage", 10)
     sess.require("replace_state:mem_index_on_the_dead_object's_address", 3)
+    sess.require("hits_served:t2-stage(under a binding slice budget)", 3)
     sess.finish()
 
 
